@@ -1,7 +1,7 @@
 SPECIFICATION TraceSpec
 CONSTANTS
-  KINDS = {"netlist", "die", "alloc", "stog", "encode", "legal", "strop", "undef", "pads"}
-  PROBES = {"netlist", "die", "alloc", "stog", "encode", "legal", "strop", "sliver"}
+  KINDS = {"netlist", "die", "alloc", "stog", "encode", "legal", "strop", "undef", "pads", "initalloc"}
+  PROBES = {"netlist", "die", "alloc", "stog", "encode", "legal", "strop", "sliver", "initalloc"}
   SCALES = {0, 1, 2, 3, 4}
   MID = 2
   BAND = 2
